@@ -129,6 +129,11 @@ class _PathClient(SymClient):
             if isinstance(f, ast.Attribute) and (nm is None or not nm.split(".")[0] in ctx.func.mod.imports):
                 recv = self.sym(f.value, env, ver, ctx)
                 nm = f.attr
+            elif isinstance(f, ast.Name) and isinstance(env.get((self.depth(ctx), f.id)), tuple) \
+                    and env[(self.depth(ctx), f.id)][0] == "attr":
+                # a bound method held in a local / parameter (`add = self.append; add(x)`): the call of that method
+                t_ = env[(self.depth(ctx), f.id)]
+                nm, recv = t_[2], t_[1]
             elif nm is None:
                 nm = ast.unparse(f) if isinstance(f, (ast.Name, ast.Attribute)) else "?"
             args = tuple(self.sym(a.value if isinstance(a, ast.Starred) else a, env, ver, ctx) for a in node.args) \
